@@ -623,3 +623,29 @@ package command
 //@   entry row full:     [call parseDstSubnet(_, args) as (n, e) ; call getScanRange(_, n) as (r, e2) ; call getLogger(_, scanName, _) as (lg, e3) ; call validateARPStdin(_) as (e4) ; call parseARPCache(_) as (ca, e5) ;
 //@                        call getGatewayMAC(_, r.Interface, ca) as (gw, e6)]
 //@                          when e4 == nil && e5 == nil && o.scanRange == r && o.logger == lg && o.cache == ca && ret == e6 && (e6 == nil ==> o.gatewayMAC == gw) -> exit
+
+// ---------------------------------------------------------------------------------------------
+// Raw option parsing (C15 C18 C02 C08): whenever a raw option text was given and parsing succeeds, it was parsed -
+// exactly once, from THAT text - and the parsed values are the ones stored. (Loop-free functions: "exit require".)
+//@ func (*genericScanCmdOpts).parseRawOptions
+//@   props C15 C18 C02 C08 C01
+//@   opaque parsePortRanges, parsePortsFile, parseExcludeFile
+//@   exit require rate:    call parseRateLimit(bind_s) as (c, w, e) when len(pre(o.rawRateLimit)) > 0 && ret == nil then s == pre(o.rawRateLimit) && e == nil && o.rateCount == c && o.rateWindow == w
+//@   exit require exclude: call parseExcludeFile(_) as (x, e) when len(pre(o.rawExcludeFile)) > 0 && ret == nil then e == nil && o.excludeIPs == x
+//@   exit require ports:   call parsePortRanges(bind_s) as (pr, e) when len(pre(o.rawPortRanges)) > 0 && ret == nil then s == pre(o.rawPortRanges) && e == nil
+//@   exit require file:    call parsePortsFile(_) as (pr, e) when len(pre(o.portFile)) > 0 && ret == nil then e == nil
+//@   ensures workers: ret == nil ==> o.workers > 0
+//@ func (*packetScanCmdOpts).parseRawOptions
+//@   props C15 C18 C02 C17
+//@   opaque parseExcludeFile
+//@   observe net.InterfaceByName, net.ParseMAC
+//@   exit require rate:    call parseRateLimit(bind_s) as (c, w, e) when len(pre(o.rawRateLimit)) > 0 && ret == nil then s == pre(o.rawRateLimit) && e == nil && o.rateCount == c && o.rateWindow == w
+//@   exit require exclude: call parseExcludeFile(_) as (x, e) when len(pre(o.rawExcludeFile)) > 0 && ret == nil then e == nil && o.excludeIPs == x
+//@   exit require iface:   call net.InterfaceByName(bind_s) as (i, e) when len(pre(o.rawInterface)) > 0 && ret == nil then s == pre(o.rawInterface) && e == nil && o.iface == i
+//@   exit require srcmac:  call net.ParseMAC(bind_s) as (m, e) when len(pre(o.rawSrcMAC)) > 0 && ret == nil then s == pre(o.rawSrcMAC) && e == nil && o.srcMAC == m
+//@ func (*ipPortScanCmdOpts).parseRawOptions
+//@   props C18 C01
+//@   opaque (*ipScanCmdOpts).parseRawOptions, parsePortRanges, parsePortsFile
+//@   exit require base:  call parseRawOptions(_) as (e) when ret == nil then e == nil
+//@   exit require ports: call parsePortRanges(bind_s) as (pr, e) when len(pre(o.rawPortRanges)) > 0 && ret == nil then s == pre(o.rawPortRanges) && e == nil
+//@   exit require file:  call parsePortsFile(_) as (pr, e) when len(pre(o.portFile)) > 0 && ret == nil then e == nil
